@@ -160,17 +160,16 @@ func (e *env) vio(key, format string, a ...any) {
 }
 
 // apiErr reports an API call that failed although the simulated TNC did its part. The library's
-// own reply timeouts (3 s, 10 s, 30 s) are wall-clock: such an error counts only when the reply
-// demonstrably reached the library (in-memory link, every byte consumed); otherwise the machine
-// may simply have been too busy and the execution is inconclusive.
+// own reply timeouts (3 s, 10 s, 30 s) are wall-clock: a reply that is merely queued behind a long
+// burst which a slow reader on a busy machine is still working through looks the same as a lost
+// one. Such an error is therefore never a verdict (a reply that is really lost shows up as a call
+// that hangs while nothing moves, see stuck, or as a gap in the stream).
 func (e *env) apiErr(key string, err error, format string, a ...any) {
 	if err != nil {
 		msg := err.Error()
 		if strings.Contains(msg, "timeout") || errors.Is(err, context.DeadlineExceeded) {
-			if !(e.host != nil && e.host.Unread() == 0) {
-				e.inconclusive(fmt.Sprintf("%s/%s seed %d: %s with a timeout error (%v) on a link whose consumption cannot be observed", e.sc.Class, e.sc.Link, e.sc.Seed, key, err))
-				return
-			}
+			e.inconclusive(fmt.Sprintf("%s/%s seed %d: %s with a wall-clock timeout inside the library (%v)", e.sc.Class, e.sc.Link, e.sc.Seed, key, err))
+			return
 		}
 	}
 	e.vio(key, format, a...)
@@ -609,7 +608,7 @@ func (e *env) connect() bool {
 	// The library refuses an incoming connection when no goroutine is inside Accept at that very
 	// moment (documented behaviour). A refusal is visible as the 'd' frame it sends; the remote
 	// station then simply calls again.
-	deadline := time.Now().Add(60 * time.Second)
+	lastProgress, lastChange, started := e.progress(), time.Now(), time.Now()
 	for attempt := 0; ; attempt++ {
 		time.Sleep(time.Duration(1+attempt) * 2 * time.Millisecond)
 		if sc.EarlyData > 0 {
@@ -642,7 +641,11 @@ func (e *env) connect() bool {
 				if rep.HostDisc {
 					refused = true
 				}
-				if time.Now().After(deadline) {
+				if p := e.progress(); p != lastProgress {
+					lastProgress, lastChange = p, time.Now()
+				}
+				if time.Since(lastChange) > stuckAfter || time.Since(started) > hardLimit {
+					e.count("accept_attempts_when_stuck", int64(attempt+1))
 					e.stuck("Accept")
 					return false
 				}
@@ -709,7 +712,9 @@ func (e *env) reader(done chan struct{}) {
 				return
 			}
 			reads++
-			if e.sc.ReadDelayUs > 0 && reads%8 == 0 {
+			if e.sc.ReadDelayUs > 0 && reads%8 == 0 && reads < 8*400 {
+				// a reader that is slower than the TNC for a while (bounded: the point is the
+				// schedule, not to starve the connection's own replies for minutes on a busy machine)
 				time.Sleep(time.Duration(e.sc.ReadDelayUs) * time.Microsecond)
 			}
 		}
